@@ -7,6 +7,7 @@ import (
 	"encoding/json"
 	"fmt"
 	"os"
+	"strconv"
 	"reflect"
 	"strings"
 	"testing"
@@ -528,10 +529,10 @@ func genStream(t *rapid.T) streamCase {
 		}
 		c.SC = append(c.SC, l)
 	}
-	// one stream in 150: a NAL unit around and beyond 2^16 bytes (the length field has 32 bits); the bulk is a
+	// one stream in 500: a NAL unit around and beyond 2^16 bytes (the length field has 32 bits); the bulk is a
 	// filler without zero bytes behind a drawn head, the stream is kept short, and every other time all start codes
 	// have 4 bytes (the in-place conversion)
-	if rapid.IntRange(0, 149).Draw(t, "hugeNalu") == 0 {
+	if rapid.IntRange(0, hugeEvery-1).Draw(t, "hugeNalu") == 0 {
 		if len(c.Nalus) > 3 {
 			c.Nalus, c.SC = c.Nalus[:3], c.SC[:3]
 		}
@@ -697,3 +698,11 @@ func TestAlignmentSweep(t *testing.T) {
 	}
 	harness.Rec.Exhaustive(fmt.Sprintf("alignment sweep: 2 codecs x 5 fill patterns x first NAL length 1..%d x second NAL length 1..%d x all 8 start-code length combinations", maxA, maxB))
 }
+
+// hugeEvery: one stream in hugeEvery carries a NAL unit around 2^16 bytes (VERIF_C14_HUGE_EVERY overrides, for profiling).
+var hugeEvery = func() int {
+	if v, err := strconv.Atoi(os.Getenv("VERIF_C14_HUGE_EVERY")); err == nil && v > 0 {
+		return v
+	}
+	return 500
+}()
